@@ -61,6 +61,42 @@ def h_node_setErr : Nat := 0x35428438b603832d
 /-- hash of the normalised skeleton of setStatus (internal/dag/scheduler/node.go) -/
 def h_node_setStatus : Nat := 0x648579034e8932b1
 
+/-- hash of the normalised skeleton of finish (internal/dag/scheduler/node.go) -/
+def h_node_finish : Nat := 0x66b0b281098a44e2
+
+/-- hash of the normalised skeleton of State (internal/dag/scheduler/node.go) -/
+def h_node_State : Nat := 0x937d4bd7a13083fc
+
+/-- hash of the normalised skeleton of SetError (internal/dag/scheduler/node.go) -/
+def h_node_SetError : Nat := 0x3e4a0d36440aaf3f
+
+/-- hash of the normalised skeleton of getRetryCount (internal/dag/scheduler/node.go) -/
+def h_node_getRetryCount : Nat := 0xe74990bb6d619407
+
+/-- hash of the normalised skeleton of setRetriedAt (internal/dag/scheduler/node.go) -/
+def h_node_setRetriedAt : Nat := 0x2f4ed76d845e0b6b
+
+/-- hash of the normalised skeleton of getDoneCount (internal/dag/scheduler/node.go) -/
+def h_node_getDoneCount : Nat := 0x9be03b6a2a9ae47d
+
+/-- hash of the normalised skeleton of clearState (internal/dag/scheduler/node.go) -/
+def h_node_clearState : Nat := 0x0cd364175773c3b7
+
+/-- hash of the normalised skeleton of incRetryCount (internal/dag/scheduler/node.go) -/
+def h_node_incRetryCount : Nat := 0x4a36ab112044b73b
+
+/-- hash of the normalised skeleton of incDoneCount (internal/dag/scheduler/node.go) -/
+def h_node_incDoneCount : Nat := 0x902bb2e29b9efac1
+
+/-- hash of the normalised skeleton of setCmdRunning (internal/dag/scheduler/node.go) -/
+def h_node_setCmdRunning : Nat := 0x1ccfad945ee66013
+
+/-- hash of the normalised skeleton of isCmdRunning (internal/dag/scheduler/node.go) -/
+def h_node_isCmdRunning : Nat := 0x3ebe6abf4c92454b
+
+/-- hash of the normalised skeleton of init (internal/dag/scheduler/node.go) -/
+def h_node_init : Nat := 0x01461d709eb184c3
+
 /-- hash of the normalised skeleton of IsRunning (internal/dag/scheduler/graph.go) -/
 def h_graph_IsRunning : Nat := 0x7ff8cd9864f9fa04
 
